@@ -109,7 +109,9 @@ def _xy_threshold():
     def body():
         cases = 0
         for axis in (verif.axis.Threshold(), verif.axis.Obs(), verif.axis.Fcst()):
-            for bin_type, thresholds in (("above", [1.0]), ("above", [1.0, 2.0, 5.0]), ("below=", [0.0, 3.0]), ("within", [0.0, 1.0, 4.0]), ("within=", [2.0, 3.0])):
+            for bin_type, thresholds in (("above", [1.0]), ("above", [1.0, 2.0, 5.0]), ("below=", [0.0, 3.0]), ("within", [0.0, 1.0, 4.0]), ("within=", [2.0, 3.0]),
+                                        # thresholds are reported in the order given, not sorted
+                                        ("above", [5.0, 1.0, 3.0]), ("below", [3.0, 0.0]), ("above=", [2.0, 2.0, 1.0])):
                 for F in (1, 2, 3):
                     for acc in (False, True):
                         ivs = verif.util.get_intervals(bin_type, thresholds)
@@ -137,7 +139,7 @@ def _xy_threshold():
 
 
 _enumerated("verif.output.Standard._get_x_y#BOUNDED:threshold-like-axes(one-row-per-interval-in-the-given-order)", ("C12",),
-            "axes threshold/obs/fcst x 5 bin-type/threshold lists x F in 1..3 x with/without -acc, stub metric with one score per (input, interval)",
+            "axes threshold/obs/fcst x 8 bin-type/threshold lists (ascending, descending, unordered, repeated) x F in 1..3 x with/without -acc, stub metric with one score per (input, interval)",
             _xy_threshold(), ["verif.output.Standard._get_x_y"])
 
 
